@@ -351,7 +351,7 @@ Definition starts (n : N) (l : list meta) : Prop := match l with [] => True | x 
    spent total is exactly the sum of the costs and within the balance *)
 Definition acct_ok (p : pool) (a : N) : Prop :=
   match aget (p_index p) a with
-  | None => True
+  | None => aget (p_spent p) a = None
   | Some l => l <> [] /\ chain l /\ starts (nonce_of p a) l /\
               aget (p_spent p) a = Some (sum_cost l) /\ sum_cost l <= bal_of p a
   end.
@@ -392,7 +392,7 @@ Lemma inv_upd_none p q a : Inv p -> upd_none p q a -> Inv q.
 Proof.
   intros [H1 H2] [Hi [Hs [Hn Hb]]]. split.
   - intro a2. specialize (H1 a2). unfold acct_ok, nonce_of, bal_of in *. rewrite Hi, Hs, Hn, Hb.
-    rewrite !aget_adel. destruct (a =? a2); [exact I | exact H1].
+    rewrite !aget_adel. destruct (a =? a2); [reflexivity | exact H1].
   - intro a2. specialize (H2 a2). unfold bal_of in *. rewrite Hb. exact H2.
 Qed.
 
@@ -479,6 +479,110 @@ Proof.
 Qed.
 End PoolProofs.
 
+(* ------------------------------------------------------------------ SetGasTip *)
+Lemma aset_aset {V} (m : list (N * V)) k v1 v2 : aset (aset m k v1) k v2 = aset m k v2.
+Proof.
+  induction m as [|[k' v'] r IH]; cbn [aset].
+  - rewrite N.eqb_refl. reflexivity.
+  - destruct (k' =? k) eqn:E1; cbn [aset].
+    + rewrite N.eqb_refl. reflexivity.
+    + destruct (k <? k') eqn:E2; cbn [aset].
+      * rewrite N.eqb_refl. reflexivity.
+      * rewrite E1, E2, IH. reflexivity.
+Qed.
+
+Lemma adel_aset {V} (m : list (N * V)) k v : adel (aset m k v) k = adel m k.
+Proof.
+  induction m as [|[k' v'] r IH]; cbn [aset adel].
+  - rewrite N.eqb_refl. reflexivity.
+  - destruct (k' =? k) eqn:E1; cbn [adel].
+    + rewrite N.eqb_refl. reflexivity.
+    + destruct (k <? k') eqn:E2; cbn [adel].
+      * rewrite N.eqb_refl, E1. reflexivity.
+      * rewrite E1, IH. reflexivity.
+Qed.
+
+Lemma fold_err {A B} (f : res A -> B -> res A) (Hf : forall e b, f (Err e) b = Err e) l e :
+  fold_left f l (Err e) = Err e.
+Proof. induction l as [|x r IH]; cbn; [reflexivity|]. rewrite Hf. exact IH. Qed.
+
+Lemma unaccount_get a m p q : unaccount a m p = Ok q ->
+  exists s, aget (p_spent p) a = Some s /\ p_spent q = aset (p_spent p) a (sub256 s (m_cost m)) /\
+            p_index q = p_index p /\ p_nonce q = p_nonce p /\ p_bal q = p_bal p.
+Proof.
+  unfold unaccount. intro H. inv_bind_as H p1. apply sub_spent_get in E.
+  destruct E as [s [E1 [E2 [E3 [E4 E5]]]]]. inversion H; subst. exists s. repeat split; assumption.
+Qed.
+
+Lemma fold_unaccount a : forall dropped q q1 s,
+  fold_left (fun r2 m => do x <- r2 ; unaccount a m x) dropped (Ok q) = Ok q1 ->
+  aget (p_spent q) a = Some s -> sum_cost dropped <= s ->
+  (dropped = [] /\ q1 = q \/ p_spent q1 = aset (p_spent q) a (s - sum_cost dropped)) /\
+  p_index q1 = p_index q /\ p_nonce q1 = p_nonce q /\ p_bal q1 = p_bal q.
+Proof.
+  induction dropped as [|m r IH]; intros q q1 s H Hs Hle; cbn [fold_left] in H.
+  - inversion H; subst. split; [left; split; reflexivity|]. repeat split.
+  - cbn [bind] in H. destruct (unaccount a m q) as [q0|e] eqn:E.
+    2:{ rewrite fold_err in H; [discriminate | intros; reflexivity]. }
+    apply unaccount_get in E. destruct E as [s0 [E1 [E2 [E3 [E4 E5]]]]].
+    rewrite Hs in E1. inversion E1; subst s0.
+    change (sum_cost (m :: r)) with (m_cost m + sum_cost r) in *.
+    rewrite sub256_exact in E2 by lia.
+    assert (Hs0 : aget (p_spent q0) a = Some (s - m_cost m)).
+    { rewrite E2, aget_aset, N.eqb_refl. reflexivity. }
+    destruct (IH q0 q1 (s - m_cost m) H Hs0 ltac:(lia)) as [Hc [Hi [Hn Hb]]].
+    split; [right | repeat split; congruence].
+    destruct Hc as [[Hr Hq]|Hc].
+    + subst. cbn. rewrite E2. f_equal. change (sum_cost []) with 0. lia.
+    + rewrite Hc, E2, aset_aset. f_equal. lia.
+Qed.
+
+Lemma starts_app n k d : k <> [] -> starts n (k ++ d) -> starts n k.
+Proof. destruct k; [contradiction | intros _ H; exact H]. Qed.
+
+Section TipProofs.
+Variable prioE prioB : N -> N -> Z.
+
+(* SetGasTip keeps the invariant (it truncates lists at the first underpriced transaction) *)
+Lemma set_gas_tip_inv tip p q : Inv p -> set_gas_tip prioE prioB tip p = Ok q -> Inv q.
+Proof.
+  intros HI H. unfold set_gas_tip in H.
+  assert (HI0 : Inv (set_tip (Some tip) p)) by (eapply inv_same_core; [exact HI | repeat split]).
+  destruct (match p_tip p with None => true | Some o => o <? tip end); [|inversion H; subst; exact HI0].
+  revert H. generalize (akeys (p_index (set_tip (Some tip) p))). generalize dependent (set_tip (Some tip) p).
+  intros p0 HI1 accts. clear HI p. revert p0 HI1.
+  induction accts as [|a r IH]; intros p0 HI1 H; cbn [fold_left] in H.
+  - inversion H; subst. exact HI1.
+  - cbn [bind] in H.
+    destruct (split_tip tip (txs_of p0 a)) as [keep dropped] eqn:Es.
+    destruct dropped as [|d0 dr].
+    + apply IH in H; assumption.
+    + match type of H with fold_left ?f r ?x = _ => destruct x as [p1|e] eqn:Ex end.
+      2:{ rewrite fold_err in H; [discriminate | intros ? ?; reflexivity]. }
+      apply IH in H; [exact H|]. clear IH H.
+      pose proof (split_tip_spec _ _ _ _ Es) as [Hl _].
+      unfold txs_of in Hl, Es. destruct (aget (p_index p0) a) as [l|] eqn:Ei; [|destruct keep; discriminate Hl].
+      pose proof (proj1 HI1 a) as Hok. unfold acct_ok in Hok. rewrite Ei in Hok.
+      destruct Hok as [Hne [Hc [Hst [Hsp Hle]]]].
+      inv_bind_as Ex q1.
+      assert (Hsum : sum_cost l = sum_cost keep + sum_cost (d0 :: dr)) by (rewrite Hl; apply sum_cost_app).
+      destruct (fold_unaccount a (d0 :: dr) p0 q1 (sum_cost l) E Hsp ltac:(lia)) as [Hsq [Hi [Hn Hb]]].
+      destruct Hsq as [[Hx _]|Hsq]; [discriminate|].
+      inv_bind_as Ex q2. apply store_dels_core in Ex. eapply inv_same_core; [|exact Ex].
+      destruct keep as [|k0 kr].
+      * apply heap_remove_core in E0. eapply inv_same_core; [|exact E0].
+        eapply inv_upd_none with (a := a); [exact HI1|]. unfold upd_none.
+        cbn [p_index p_spent p_nonce p_bal set_index set_spent]. rewrite Hi, Hsq, adel_aset, Hn, Hb. repeat split.
+      * apply heap_fix_core in E0. eapply inv_same_core; [|exact E0].
+        eapply inv_upd_some with (a := a) (l := k0 :: kr); [exact HI1 | | discriminate | | |].
+        -- unfold upd_some. cbn [p_index p_spent p_nonce p_bal set_index]. rewrite Hi, Hsq, Hn, Hb.
+           repeat split. f_equal. lia.
+        -- rewrite Hl in Hc. eapply chain_app_l; eauto.
+        -- rewrite Hl in Hst. exact Hst.
+        -- lia.
+Qed.
+End TipProofs.
+
 (* ------------------------------------------------------------------ a concrete Inv state *)
 Definition ex_tx (id nonce tip : N) : tx := mkTx id 0 nonce tip 100 7 3017972 1.
 Definition m_ex0 : meta := mkMeta (ex_tx 0 0 10) 0 10 100 7.
@@ -490,7 +594,7 @@ Definition p_ex : pool :=
 Lemma p_ex_inv : Inv p_ex.
 Proof.
   split; intro a.
-  - unfold acct_ok, p_ex. cbn [p_index p_spent aget]. destruct (0 =? a) eqn:E; [|exact I].
+  - unfold acct_ok, p_ex. cbn [p_index p_spent aget]. destruct (0 =? a) eqn:E; [|reflexivity].
     repeat split.
     + discriminate.
     + constructor; [vm_compute; reflexivity | constructor].
